@@ -46,6 +46,7 @@ type Exec struct {
 	notes      []string
 	entryEnv   map[string]*SV // parameter bindings at entry
 	oblSeq     map[string]int
+	modLocs    map[string][]*Term
 }
 
 func (x *Exec) noteWrite(comp string, ref *Term) { x.writes[comp] = true }
@@ -59,6 +60,13 @@ func (x *Exec) oblige(st *State, kind, label string, tags []string, goal *Term, 
 		// still count trivially true obligations so names are stable
 		if !st.dead {
 			x.obls = append(x.obls, &Obligation{Name: x.unit.Key + "#" + kind + "[" + label + "]", Kind: kind, Tags: tags, Goal: goal, Status: "unsat", Solver: "syntactic", Unit: x.unit.Key, Pos: x.eng.posString(pos)})
+		}
+		return
+	}
+	if goal.Op == "and" && len(goal.Args) > 1 {
+		// split conjunctions: one query per conjunct (aggregated under the same name)
+		for _, g := range goal.Args {
+			x.oblige(st, kind, label, tags, g, pos)
 		}
 		return
 	}
@@ -1033,6 +1041,14 @@ func (x *Exec) binop(fr *Frame, st *State, op token.Token, a, b *Term, ta, tb ty
 			}
 		}
 		// truncated division on Int
+		if b.isLit && b.lit.Sign() > 0 {
+			neg := App("-", SInt, a)
+			q := Ite(App(">=", SBool, a, zero), App("div", SInt, a, b), App("-", SInt, App("div", SInt, neg, b)))
+			if op == token.QUO {
+				return q
+			}
+			return Ite(App(">=", SBool, a, zero), App("mod", SInt, a, b), App("-", SInt, App("mod", SInt, neg, b)))
+		}
 		q := Ite(App(">=", SBool, a, zero),
 			Ite(App(">", SBool, b, zero), App("div", SInt, a, b), App("-", SInt, App("div", SInt, a, App("-", SInt, b)))),
 			Ite(App(">", SBool, b, zero), App("-", SInt, App("div", SInt, App("-", SInt, a), b)), App("div", SInt, App("-", SInt, a), App("-", SInt, b))))
@@ -1192,6 +1208,9 @@ func (x *Exec) enterLoopHead(fr *Frame, st *State, b, prev *ssa.BasicBlock, lp *
 	fromInside := prev != nil && lp.body[prev]
 	envf := func() *Env { return x.loopEnv(fr, st) }
 	if fromInside {
+		if fr.depth == 0 && x.unit.Con != nil && !x.unit.Con.ModifiesAll && x.modLocs != nil {
+			x.frameObligations(st, x.unit.Con, b.Instrs[0].Pos())
+		}
 		if spec != nil {
 			for _, c := range spec.Invariants {
 				g := x.evalClauseBool(c, envf(), st)
@@ -1298,7 +1317,12 @@ func (x *Exec) havocAllHeap(st *State) {
 // assumeFrameFor: after havocking component c inside a loop, locations that the
 // unit's modifies clause does not mention keep their pre-loop contents.
 func (x *Exec) assumeFrameFor(st *State, c string, old, nv *Term) {
-	// conservative: nothing assumed here; loop invariants must carry what is needed.
+	// the unit's frame condition is a free loop invariant: it is checked at every
+	// back edge (enterLoopHead) and at every return, so it may be assumed here.
+	if x.unit == nil || x.unit.Con == nil || x.unit.Con.ModifiesAll || x.modLocs == nil || strings.HasPrefix(c, "G!") {
+		return
+	}
+	st.assume(x.frameGoal(c, nv))
 }
 
 type effects struct {
